@@ -124,6 +124,10 @@ func Variants(samIn, refIn io.Reader, refFromFile bool, annoIn io.Reader, annoSu
 		if len(header.Refs()) == 0 {
 			return errors.New("no reference sequence (@SQ line) in the sam header")
 		}
+		// the alignments are in the coordinates of the sequence the sam header describes
+		if header.Refs()[0].Len() != len(ref.Seq) {
+			return errors.New("the reference sequence is not the length given in the sam header (@SQ LN)")
+		}
 	case err := <-cErr:
 		return err
 	}
